@@ -148,6 +148,53 @@ func init() {
 				cse.TimeoutMS = 90000
 				cs = append(cs, cse)
 			}
+			// the limit stops triggering while iterations never finish: only the completion timeout may end the run
+			nlf := 6
+			if tier == "thorough" {
+				nlf = 36
+			}
+			for i := 0; i < nlf; i++ {
+				mode := []string{"users", "constant", "staged", "file", "custom", "gaussian"}[i%6]
+				c := pick(r, 2, 4, 8)
+				N := uint64(1 + r.IntN(c-1))
+				p := c05Params{Ending: "limit", Blocking: "forever"}
+				switch mode {
+				case "users":
+					p.Spec = engine.Spec{Mode: "users", Concurrency: c}
+				case "file":
+					p.Spec = engine.Spec{Mode: "file", YAML: c05FileYAML(c, "1500ms", N, "- duration: 5s\n  mode: users\n")}
+				default:
+					p.Spec = engine.RateSpec(mode, c, 5, c)
+				}
+				p.Spec.MaxIterations, p.Spec.MaxDurationMS, p.Spec.IgnoreDropped, p.Spec.CompletionMS = N, 1500, true, 150+r.IntN(150)
+				p.Desc = fmt.Sprintf("mode=%s c=%d ending=limit(N=%d) blocking=forever completion=%dms", mode, c, N, p.Spec.CompletionMS)
+				cse := core.MkCase("C05", "run", 5000+i, seed, p)
+				cse.Race = true
+				cse.Procs = pick(r, 2, 16)
+				cse.TimeoutMS = 90000
+				cs = append(cs, cse)
+			}
+			// cancellation lands while the users are being started
+			ncs := 6
+			if tier == "thorough" {
+				ncs = 40
+			}
+			for i := 0; i < ncs; i++ {
+				c := pick(r, 500, 2000, 4000)
+				p := c05Params{Ending: "cancel-trigger-start", Blocking: "none", At: r.IntN(2500)}
+				if i%3 == 2 {
+					p.Spec = engine.Spec{Mode: "file", YAML: c05FileYAML(c, "60s", 0, "- duration: 20s\n  mode: users\n")}
+				} else {
+					p.Spec = engine.Spec{Mode: "users", Concurrency: c, MaxDurationMS: 60000}
+				}
+				p.Spec.IgnoreDropped, p.Spec.CompletionMS = true, 3000
+				p.Desc = fmt.Sprintf("mode=%s users=%d ending=cancel %dus after triggering starts completion=3000ms", p.Spec.Mode, c, p.At)
+				cse := core.MkCase("C05", "run", 6000+i, seed, p)
+				cse.Race = i%2 == 0
+				cse.Procs = pick(r, 2, 4, 16)
+				cse.TimeoutMS = 90000
+				cs = append(cs, cse)
+			}
 			ns := 2
 			if tier == "thorough" {
 				ns = 10
@@ -254,6 +301,13 @@ func c05Run(c *core.Case, o *core.Outcome) {
 		OnTrigger: func(ctx context.Context) {
 			triggerEntered = true
 			trigCtx = ctx
+			if p.Ending == "cancel-trigger-start" {
+				go func() {
+					spin(time.Duration(p.At) * time.Microsecond)
+					markStop()
+					e.cancel()
+				}()
+			}
 			if dl, ok := ctx.Deadline(); ok {
 				deadlineOK = true
 				deadlineRem = time.Until(dl)
@@ -383,6 +437,9 @@ func c05Run(c *core.Case, o *core.Outcome) {
 		}
 		o.AddObs("completion_timeouts_observed", 1)
 		o.AddObs("stopped_with_inflight", 1)
+	} else if timeoutExpired && p.Blocking == "none" && p.Ending == "cancel-trigger-start" {
+		viol("timeout-with-nothing-in-flight", "the run sat through its completion timeout (3 s) although no iteration was executing (%d started, all finished): a worker of the run never finished", e.started.Load())
+		return
 	} else if !timeoutExpired {
 		if inflightAtReturn != 0 {
 			viol("returned-with-inflight", "Do returned without the completion timeout expiring while %d iterations were still executing", inflightAtReturn)
